@@ -104,7 +104,8 @@ def scanOracle (out : String) : OScan :=
       let implS := " ".intercalate rest
       let as := (commaList implS).filterMap parseAggRec
       if !sc.ready then { sc with s := { sc.s with aggs := as } } else
-      let mine := joinComma (sc.s.aggs.map renderAggRec)
+      let sorted := sc.s.aggs.mergeSort (fun a b => a.qid < b.qid || (a.qid == b.qid && a.ts ≤ b.ts))
+      let mine := joinComma (sorted.map renderAggRec)
       if mine == implS then { sc with aggsSeen := as.length }
       else { sc with ok := false, note := s!"Aggregates differ after h={sc.h}: model [{mine.take 300}] impl [{implS.take 300}]" }
     | "C" :: cur :: seq :: nid :: _ =>
@@ -138,11 +139,61 @@ def checkProbes (s : S) (probes : String) : Bool × String :=
       if good then acc else (false, s!"getter probe differs: {p}")
     | [] => acc) (true, "")
 
+/-- C08 statements evaluated on the implementation's own dumps: consecutive `A` dumps differ only by appended
+entries and by flags turned on; a new entry carries the query's previous sequence number + 1 and a timestamp above
+all earlier ones of its query; the getter probes agree with the chronological list of the final dump -/
+def c08Monitor (out : String) : Bool × String :=
+  let recs := out.splitOn " ;; "
+  let dumps := recs.filterMap (fun r => if r.startsWith "A " || r == "A" then some ((commaList ((r.drop 2).toString)).filterMap parseAggRec) else none)
+  let rec go : List (List Oracle.Agg) → Bool × String
+    | a :: b :: rest =>
+      let keptOk := a.all (fun x => b.any (fun y => y.qid == x.qid && y.ts == x.ts && y.value == x.value && y.reporter == x.reporter &&
+        y.power == x.power && y.nonce == x.nonce && y.microHeight == x.microHeight && (y.flagged || !x.flagged)))
+      let news := b.filter (fun y => !(a.any (fun x => x.qid == y.qid && x.ts == y.ts)))
+      let newsOk := news.all (fun y =>
+        let prev := a.filter (·.qid == y.qid)
+        let maxN := (prev.map (·.nonce)).foldl max 0
+        prev.all (fun x => decide (x.ts < y.ts)) && y.nonce == maxN + 1 && !y.flagged) &&
+        -- at most one new aggregate per query and block
+        news.all (fun y => (news.filter (fun z => z.qid == y.qid)).length == 1)
+      if keptOk && newsOk then go (b :: rest)
+      else (false, s!"aggregate history changed illegally between two blocks (kept={keptOk} new={newsOk})")
+    | _ => (true, "")
+  let (ok, note) := go dumps
+  if !ok then (ok, note) else
+  -- probes against the implementation's final list
+  let final := dumps.getLast?.getD []
+  let probes := (recs.filter (·.startsWith "G ")).getLast?.getD "G "
+  checkProbes { aggs := final } ((probes.drop 2).toString)
+
+/-- C07 statements evaluated on the implementation's own decisions -/
+def c07Monitor (out : String) : Bool × String :=
+  (out.splitOn " ;; ").foldl (fun (acc : Bool × String) rec =>
+    if !acc.1 then acc else
+    match rec.splitOn " " with
+    | "R" :: _qid :: kind :: _w :: _m :: _rep :: stake :: minS :: vok :: res :: _ =>
+      if res != "ok" then acc else
+      let st := parseInt? stake
+      let good := (kind == "spot" || kind == "deposit") && vok == "true" &&
+        (match st with | some v => decide ((parseInt? minS).getD 0 ≤ v) | none => false)
+      if good then acc else (false, s!"report admitted against the rules: {rec.take 140}")
+    | _ => acc) (true, "")
+
 def runOracle (_inp : List String) (out : String) : Option Res :=
   let sc := scanOracle out
   let (pok, pnote) := if sc.ok then checkProbes sc.s sc.probes else (true, "")
   -- monitor (C07/C08 statements on the implementation's own dumps) is evaluated by `oracleMonitor`
   some { agree := sc.ok && pok && !sc.halted, monitor := true, nontrivial := decide (sc.aggsSeen ≥ 2 ∧ sc.txOk ≥ 5), model := "",
          note := if sc.note != "" then sc.note else pnote }
+
+def runOracle7 (inp : List String) (out : String) : Option Res := do
+  let r ← runOracle inp out
+  let (ok, note) := c07Monitor out
+  pure { r with monitor := ok, note := if r.note != "" then r.note else note }
+
+def runOracle8 (inp : List String) (out : String) : Option Res := do
+  let r ← runOracle inp out
+  let (ok, note) := c08Monitor out
+  pure { r with monitor := ok, note := if r.note != "" then r.note else note }
 
 end Driver
